@@ -4,8 +4,16 @@ From NV Require Import Base.Bytes gen.CopConst Proto.CopCodec.
 Import ListNotations.
 Local Open Scope N_scope.
 
+Definition wf_value (v : value) : Prop := wf_valueb v = true.
 Definition transferable (v : value) : Prop := transferableb v = true.
 Definition AMAX : N := 4294967295.
+
+Lemma transferable_wf v : transferable v -> wf_value v.
+Proof. unfold transferable, transferableb, wf_value. intros H. apply andb_true_iff in H. apply H. Qed.
+Lemma transferable_depth v : transferable v -> vdepth v <= COP_MAX_NESTING.
+Proof. unfold transferable, transferableb. intros H. apply andb_true_iff in H. destruct H as [_ H]. now apply N.leb_le in H. Qed.
+Lemma transferable_all_wf l : Forall transferable l -> Forall wf_value l.
+Proof. intros H. eapply Forall_impl; [|exact H]. apply transferable_wf. Qed.
 
 (* ---------- induction principle for the nested type *)
 Section value_ind2.
@@ -50,26 +58,26 @@ Ltac tagc := repeat match goal with
       end
   end; cbv iota.
 
-Lemma transferable_arr et es :
-  transferable (VArr et es) -> et < 256 /\ len es < 2 ^ 32 /\ Forall transferable es.
+Lemma wf_value_arr et es :
+  wf_value (VArr et es) -> et < 256 /\ len es < 2 ^ 32 /\ Forall wf_value es.
 Proof.
-  unfold transferable. cbn [transferableb]. rewrite !andb_true_iff, !N.ltb_lt, forallb_forall, Forall_forall. tauto.
+  unfold wf_value. cbn [wf_valueb]. rewrite !andb_true_iff, !N.ltb_lt, forallb_forall, Forall_forall. tauto.
 Qed.
-Lemma transferable_str s : transferable (VStr s) -> bytes_ok s /\ len s + 5 < 2 ^ 32.
+Lemma wf_value_str s : wf_value (VStr s) -> bytes_ok s /\ len s + 5 < 2 ^ 32.
 Proof.
-  unfold transferable. cbn [transferableb]. rewrite andb_true_iff, N.ltb_lt, bytes_okb_spec. tauto.
+  unfold wf_value. cbn [wf_valueb]. rewrite andb_true_iff, N.ltb_lt, bytes_okb_spec. tauto.
 Qed.
 
 Lemma ser_nonempty v : (1 <= length (ser v))%nat.
 Proof. destruct v; simpl; lia. Qed.
 
 (* unfolding equations of the mutual fixpoint *)
-Lemma deser_elems_0 amax fuel bs : deser_elems amax fuel 0 bs = EOk [] 0.
+Lemma deser_elems_0 amax depth fuel bs : deser_elems amax depth fuel 0 bs = EOk [] 0.
 Proof. destruct fuel; reflexivity. Qed.
-Lemma deser_elems_S amax f count bs : count <> 0 ->
-  deser_elems amax (S f) count bs =
-  match deser_f amax f bs with
-  | DOk v n => match deser_elems amax f (N.pred count) (skipn n bs) with
+Lemma deser_elems_S amax depth f count bs : count <> 0 ->
+  deser_elems amax depth (S f) count bs =
+  match deser_f amax depth f bs with
+  | DOk v n => match deser_elems amax depth f (N.pred count) (skipn n bs) with
                | EOk vs m => EOk (v :: vs) (n + m) | x => x end
   | DFail => EFail | DOob => EOob | DFuel => EFuel
   end.
@@ -79,57 +87,74 @@ Lemma fixed8_ser mk n rest : n < 2 ^ 64 ->
   fixed8 mk (le_bytes 8 n ++ rest) = DOk (mk n) 9.
 Proof.
   intros H. unfold fixed8. rewrite firstn_exact by apply le_bytes_length. rewrite le_bytes_length.
-  change (Nat.ltb 8 8) with false. cbv iota. rewrite of_le_le_bytes; [reflexivity|exact H].
+  change (Nat.ltb 8 8) with false. cbv iota.
+  rewrite of_le_le_bytes; [reflexivity|exact H].
 Qed.
 
-(* ---------- deserialize (serialize v ++ rest) = v, consuming exactly the encoding *)
+(* every element takes at least one byte, so an honest count passes the decoder's `count <= remaining bytes` test *)
+Lemma len_le_flat es : len es <= len (flat_map ser es).
+Proof.
+  induction es as [|e es IH]; [reflexivity|]. cbn [flat_map]. rewrite len_cons, len_app.
+  pose proof (ser_nonempty e). unfold len in *. lia.
+Qed.
+Lemma vdepth_arr_elem et es e : In e es -> 1 + vdepth e <= vdepth (VArr et es).
+Proof.
+  cbn [vdepth]. induction es as [|x es IH]; [intros []|]. intros [->|H]; cbn [fold_right]; [lia|]. specialize (IH H). lia.
+Qed.
+
+(* ---------- deserialize (serialize v ++ rest) = v, consuming exactly the encoding, at any nesting depth that leaves room *)
 Definition rt_stmt (v : value) : Prop :=
-  forall fuel rest, (length (ser v) <= fuel)%nat ->
-    deser_f AMAX fuel (ser v ++ rest) = DOk v (length (ser v)).
+  forall depth fuel rest, depth + vdepth v <= COP_MAX_NESTING -> (length (ser v) <= fuel)%nat ->
+    deser_f AMAX depth fuel (ser v ++ rest) = DOk v (length (ser v)).
 
 Lemma deser_elems_ser es : Forall rt_stmt es ->
-  forall fuel rest, (length (flat_map ser es) + 1 <= fuel)%nat ->
-    deser_elems AMAX fuel (len es) (flat_map ser es ++ rest) = EOk es (length (flat_map ser es)).
+  forall depth fuel rest, Forall (fun e => depth + vdepth e <= COP_MAX_NESTING) es ->
+    (length (flat_map ser es) + 1 <= fuel)%nat ->
+    deser_elems AMAX depth fuel (len es) (flat_map ser es ++ rest) = EOk es (length (flat_map ser es)).
 Proof.
-  induction 1 as [|e es He Hes IH]; intros fuel rest Hf.
+  induction 1 as [|e es He Hes IH]; intros depth fuel rest Hd Hf.
   - apply deser_elems_0.
   - destruct fuel as [|f]; [lia|].
     cbn [flat_map] in *. rewrite app_length in Hf.
-    pose proof (ser_nonempty e) as Hne.
+    pose proof (ser_nonempty e) as Hne. inversion Hd as [|? ? Hde Hdes]; subst.
     rewrite deser_elems_S by (rewrite len_cons; lia).
-    rewrite <- app_assoc. rewrite (He f) by lia.
+    rewrite <- app_assoc. rewrite (He depth f) by (assumption || lia).
     rewrite skipn_exact by reflexivity.
     replace (N.pred (len (e :: es))) with (len es) by (rewrite len_cons; lia).
-    rewrite IH by lia. rewrite app_length. reflexivity.
+    rewrite IH by (assumption || lia). rewrite app_length. reflexivity.
 Qed.
 
-Lemma deser_ser_f v : transferable v -> rt_stmt v.
+Lemma deser_ser_f v : wf_value v -> rt_stmt v.
 Proof.
-  induction v using value_ind2; intros T fuel rest Hf; unfold transferable in T; cbn [transferableb] in T;
+  induction v using value_ind2; intros T depth fuel rest Hdep Hf; unfold wf_value in T; cbn [wf_valueb] in T;
     (destruct fuel as [|f]; [exfalso; cbn [ser] in Hf; simpl length in Hf; lia|]).
   - (* void *) cbn [ser app deser_f]. tagc. reflexivity.
   - (* int *) apply N.ltb_lt in T. cbn [ser app deser_f]. tagc. rewrite fixed8_ser by exact T. reflexivity.
   - (* float *) apply N.ltb_lt in T. cbn [ser app deser_f]. tagc. rewrite fixed8_ser by exact T. reflexivity.
   - (* bool *) cbn [ser app deser_f]. tagc. destruct b; reflexivity.
   - (* string *)
-    apply transferable_str in T. destruct T as [_ Hl].
+    apply wf_value_str in T. destruct T as [_ Hl].
     cbn [ser]. rewrite <- app_comm_cons. cbn [deser_f]. tagc.
     rewrite <- app_assoc.
     rewrite !app_length, le_bytes_length.
     replace (Nat.ltb (4 + (length s + length rest)) 4) with false by (symmetry; apply Nat.ltb_ge; lia).
     cbv zeta. rewrite firstn_exact by apply le_bytes_length.
     rewrite of_le_le_bytes by (change (256 ^ N.of_nat 4) with (2 ^ 32); lia).
-    unfold u32. rewrite N.mod_small by (change 4294967296 with (2 ^ 32); lia).
     rewrite len_cons, !len_app, len_le_bytes.
-    replace (1 + (N.of_nat 4 + (len s + len rest)) <? 5 + len s) with false by (symmetry; apply N.ltb_ge; lia).
+    replace (1 + (N.of_nat 4 + (len s + len rest)) - 5 <? len s) with false
+      by (symmetry; apply N.ltb_ge; change (N.of_nat 4) with 4; lia).
     rewrite skipn_exact by apply le_bytes_length.
     unfold len at 1 2. rewrite Nat2N.id. rewrite firstn_exact by reflexivity.
     f_equal; simpl length; rewrite ?app_length, ?le_bytes_length; reflexivity.
   - (* opaque *) apply N.ltb_lt in T. cbn [ser app deser_f]. tagc. rewrite fixed8_ser by exact T. reflexivity.
   - (* array *)
-    fold (transferable (VArr et es)) in T. apply transferable_arr in T. destruct T as (Het & Hc & Hall).
+    fold (wf_value (VArr et es)) in T. apply wf_value_arr in T. destruct T as (Het & Hc & Hall).
     assert (Hrt : Forall rt_stmt es).
     { rewrite Forall_forall in *. intros x Hx. apply H; [exact Hx|]. apply Hall; exact Hx. }
+    assert (Hde : Forall (fun e => depth + 1 + vdepth e <= COP_MAX_NESTING) es).
+    { rewrite Forall_forall. intros x Hx. pose proof (vdepth_arr_elem et es x Hx). lia. }
+    assert (Hd1 : depth < COP_MAX_NESTING) by (cbn [vdepth] in Hdep; lia).
+    pose proof (len_le_flat es) as Hcnt.
     cbn [ser] in *. rewrite <- !app_comm_cons. cbn [deser_f]. tagc.
     cbn [length] in Hf. rewrite app_length, le_bytes_length in Hf.
     rewrite <- app_assoc.
@@ -137,101 +162,114 @@ Proof.
       by (symmetry; apply Nat.ltb_ge; cbn [length]; rewrite app_length, le_bytes_length; lia).
     cbv zeta. rewrite firstn_exact by apply le_bytes_length.
     rewrite of_le_le_bytes by (change (256 ^ N.of_nat 4) with (2 ^ 32); lia).
+    rewrite !len_cons, !len_app, len_le_bytes.
+    replace (1 + (1 + (N.of_nat 4 + (len (flat_map ser es) + len rest))) - 6 <? len es) with false
+      by (symmetry; apply N.ltb_ge; change (N.of_nat 4) with 4; lia).
+    replace (COP_MAX_NESTING <=? depth) with false by (symmetry; apply N.leb_gt; exact Hd1).
+    cbn [orb].
     replace (AMAX <? len es) with false by (symmetry; apply N.ltb_ge; unfold AMAX; change (2 ^ 32) with 4294967296 in Hc; lia).
     rewrite skipn_exact by apply le_bytes_length.
-    rewrite (deser_elems_ser es Hrt) by lia.
+    rewrite (deser_elems_ser es Hrt) by (assumption || lia).
     f_equal; cbn [length]; rewrite ?app_length, ?le_bytes_length; reflexivity.
-  - (* other: not transferable *) discriminate T.
+  - (* other: not wf *) discriminate T.
 Qed.
 
 Theorem deser_ser : forall v rest, transferable v ->
   deser (ser v ++ rest) = Some (v, length (ser v)).
 Proof.
   intros v rest T. unfold deser, deser_r, deser_a. fold AMAX.
-  rewrite (deser_ser_f v T) by (rewrite app_length; lia). reflexivity.
+  rewrite (deser_ser_f v (transferable_wf v T)); [reflexivity| |rewrite app_length; lia].
+  pose proof (transferable_depth v T). lia.
 Qed.
 
 (* every byte the serializer emits is a byte *)
 Lemma bytes_ok_cons b l : b < 256 -> bytes_ok l -> bytes_ok (b :: l).
 Proof. intros; constructor; assumption. Qed.
-Lemma ser_bytes_ok v : transferable v -> bytes_ok (ser v).
+Lemma ser_bytes_ok v : wf_value v -> bytes_ok (ser v).
 Proof.
-  induction v using value_ind2; intros T; unfold transferable in T; cbn [transferableb] in T; cbn [ser].
+  induction v using value_ind2; intros T; unfold wf_value in T; cbn [wf_valueb] in T; cbn [ser].
   - repeat constructor.
   - apply bytes_ok_cons; [reflexivity|apply le_bytes_ok].
   - apply bytes_ok_cons; [reflexivity|apply le_bytes_ok].
   - destruct b; repeat constructor.
-  - apply transferable_str in T. apply bytes_ok_cons; [reflexivity|]. apply bytes_ok_app. split; [apply le_bytes_ok|tauto].
+  - apply wf_value_str in T. apply bytes_ok_cons; [reflexivity|]. apply bytes_ok_app. split; [apply le_bytes_ok|tauto].
   - apply bytes_ok_cons; [reflexivity|apply le_bytes_ok].
-  - fold (transferable (VArr et es)) in T. apply transferable_arr in T. destruct T as (Het & _ & Hall).
+  - fold (wf_value (VArr et es)) in T. apply wf_value_arr in T. destruct T as (Het & _ & Hall).
     apply bytes_ok_cons; [reflexivity|]. apply bytes_ok_cons; [exact Het|]. apply bytes_ok_app. split; [apply le_bytes_ok|].
     clear Het. induction es as [|e es IH]; [constructor|].
     cbn [flat_map]. apply bytes_ok_app. inversion H; inversion Hall; subst. split; auto.
   - discriminate T.
 Qed.
 
-(* ---------- the deserializer never runs out of fuel and never claims more bytes than the buffer has *)
+(* ---------- the deserializer never runs out of fuel, never reads out of bounds, and never claims more bytes than the
+   buffer has *)
 Lemma deser_bounds amax fuel :
-  (forall bs, (length bs <= fuel)%nat ->
-     deser_f amax fuel bs <> DFuel /\
-     (forall v n, deser_f amax fuel bs = DOk v n -> (1 <= n <= length bs)%nat)) /\
-  (forall count bs, (length bs + 1 <= fuel)%nat ->
-     deser_elems amax fuel count bs <> EFuel /\
-     (forall vs n, deser_elems amax fuel count bs = EOk vs n -> (n <= length bs)%nat)).
+  (forall depth bs, (length bs <= fuel)%nat ->
+     deser_f amax depth fuel bs <> DFuel /\ deser_f amax depth fuel bs <> DOob /\
+     (forall v n, deser_f amax depth fuel bs = DOk v n -> (1 <= n <= length bs)%nat)) /\
+  (forall depth count bs, (length bs + 1 <= fuel)%nat ->
+     deser_elems amax depth fuel count bs <> EFuel /\ deser_elems amax depth fuel count bs <> EOob /\
+     (forall vs n, deser_elems amax depth fuel count bs = EOk vs n -> (n <= length bs)%nat)).
 Proof.
   induction fuel as [|f [IHf IHe]].
   - split.
-    + intros [|b r] H; simpl in H; [|lia]. simpl. split; [discriminate|discriminate].
-    + intros count bs H. lia.
+    + intros depth [|b r] H; simpl in H; [|lia]. simpl. repeat split; discriminate.
+    + intros depth count bs H. lia.
   - split.
-    + intros [|tag r] H; [simpl; split; discriminate|].
+    + intros depth [|tag r] H; [simpl; repeat split; discriminate|].
       simpl length in H. cbn [deser_f].
-      assert (F8 : forall mk, fixed8 mk r <> DFuel /\ (forall v n, fixed8 mk r = DOk v n -> (1 <= n <= length (tag :: r))%nat)).
-      { intros mk. unfold fixed8. destruct (Nat.ltb_spec (length (firstn 8 r)) 8); split; try discriminate.
+      assert (F8 : forall mk, fixed8 mk r <> DFuel /\ fixed8 mk r <> DOob /\
+                              (forall v n, fixed8 mk r = DOk v n -> (1 <= n <= length (tag :: r))%nat)).
+      { intros mk. unfold fixed8. destruct (Nat.ltb_spec (length (firstn 8 r)) 8); repeat split; try discriminate.
         intros v n E. inversion E; subst. rewrite firstn_length in *. cbn [length]. lia. }
       destruct (tag =? TAG_INT); [apply F8|].
       destruct (tag =? TAG_FLOAT); [apply F8|].
       destruct (tag =? TAG_BOOL).
-      { destruct r as [|b r']; split; try discriminate. intros v n E. inversion E; subst. simpl length. lia. }
+      { destruct r as [|b r']; repeat split; try discriminate. intros v n E. inversion E; subst. simpl length. lia. }
       destruct (tag =? TAG_STRING).
-      { destruct (Nat.ltb_spec (length r) 4); [split; discriminate|]. cbv zeta.
-        destruct (N.ltb_spec (len (tag :: r)) (u32 (5 + of_le (firstn 4 r)))); [split; discriminate|].
-        destruct (N.ltb_spec (len (tag :: r)) (5 + of_le (firstn 4 r))); [split; discriminate|].
-        split; [discriminate|]. clear H1 F8. set (l := of_le (firstn 4 r)) in *. clearbody l.
-        intros v n E. inversion E; subst. clear E. unfold len in H2. cbn [length] in *. lia. }
+      { destruct (Nat.ltb_spec (length r) 4); [repeat split; discriminate|]. cbv zeta.
+        destruct (N.ltb_spec (len (tag :: r) - 5) (of_le (firstn 4 r))) as [H1|H1]; [repeat split; discriminate|].
+        repeat split; try discriminate. clear F8. set (l := of_le (firstn 4 r)) in *. clearbody l.
+        intros v n E. inversion E; subst. clear E. unfold len in H1. cbn [length] in *. lia. }
       destruct (tag =? TAG_OPAQUE); [apply F8|].
       destruct (tag =? TAG_ARRAY).
-      { destruct (Nat.ltb_spec (length r) 5); [split; discriminate|].
-        destruct r as [|et r1]; [split; discriminate|]. cbv zeta. simpl length in *.
+      { destruct (Nat.ltb_spec (length r) 5); [repeat split; discriminate|].
+        destruct r as [|et r1]; [repeat split; discriminate|]. cbv zeta. simpl length in *.
         assert (L4 : length (skipn 4 r1) = (length r1 - 4)%nat) by apply skipn_length.
-        destruct (amax <? of_le (firstn 4 r1)).
-        - destruct (IHf (skipn 4 r1)) as [Hnf _]; [lia|].
-          destruct (deser_f amax f (skipn 4 r1)); split; try discriminate; try congruence.
-        - destruct (IHe (of_le (firstn 4 r1)) (skipn 4 r1)) as [Hnf Hb]; [lia|].
-          destruct (deser_elems amax f (of_le (firstn 4 r1)) (skipn 4 r1)) eqn:E; split; try discriminate; try congruence.
-          intros v n0 E0. inversion E0; subst. specialize (Hb _ _ eq_refl). lia. }
-      split; [discriminate|]. intros v n E. inversion E; subst. simpl length. lia.
-    + intros count bs H. cbn [deser_elems].
-      destruct (count =? 0); [split; [discriminate|]; intros vs n E; inversion E; lia|].
-      destruct (IHf bs) as [Hnf Hb]; [lia|].
-      destruct (deser_f amax f bs) as [v n| | |] eqn:E; try (split; [discriminate|discriminate]); [|congruence].
+        destruct ((len (tag :: et :: r1) - 6 <? of_le (firstn 4 r1)) || (COP_MAX_NESTING <=? depth)); [repeat split; discriminate|].
+        destruct (amax <? of_le (firstn 4 r1)); [repeat split; discriminate|].
+        destruct (IHe (depth + 1) (of_le (firstn 4 r1)) (skipn 4 r1)) as (Hnf & Hno & Hb); [lia|].
+        destruct (deser_elems amax (depth + 1) f (of_le (firstn 4 r1)) (skipn 4 r1)) eqn:E; repeat split; try discriminate; try congruence.
+        intros v n0 E0. inversion E0; subst. specialize (Hb _ _ eq_refl). lia. }
+      repeat split; try discriminate. intros v n E. inversion E; subst. simpl length. lia.
+    + intros depth count bs H. cbn [deser_elems].
+      destruct (count =? 0); [repeat split; try discriminate; intros vs n E; inversion E; lia|].
+      destruct (IHf depth bs) as (Hnf & Hno & Hb); [lia|].
+      destruct (deser_f amax depth f bs) as [v n| | |] eqn:E; try (repeat split; discriminate); try congruence.
       specialize (Hb _ _ eq_refl).
       assert (L : length (skipn n bs) = (length bs - n)%nat) by apply skipn_length.
-      destruct (IHe (N.pred count) (skipn n bs)) as [Hnf2 Hb2]; [lia|].
-      destruct (deser_elems amax f (N.pred count) (skipn n bs)) eqn:E2; split; try discriminate; try congruence.
+      destruct (IHe depth (N.pred count) (skipn n bs)) as (Hnf2 & Hno2 & Hb2); [lia|].
+      destruct (deser_elems amax depth f (N.pred count) (skipn n bs)) eqn:E2; repeat split; try discriminate; try congruence.
       intros vs0 n1 E3. inversion E3; subst. specialize (Hb2 _ _ eq_refl). lia.
 Qed.
 
 Theorem deser_fuel_enough : forall amax bs, deser_a amax bs <> DFuel.
 Proof. intros amax bs. unfold deser_a. apply (proj1 (deser_bounds amax (length bs))). lia. Qed.
 
+(* the decoder of the current sources never leaves its buffer, whatever bytes it is given and whatever the allocator does *)
+Theorem deser_never_oob : forall amax bs, deser_a amax bs <> DOob.
+Proof. intros amax bs. unfold deser_a. apply (proj1 (deser_bounds amax (length bs))). lia. Qed.
+
 Theorem deser_consumed : forall bs v n, deser bs = Some (v, n) -> (1 <= n <= length bs)%nat.
 Proof.
   intros bs v n. unfold deser, deser_r, deser_a.
-  destruct (deser_f 4294967295 (length bs) bs) eqn:E; try discriminate.
+  destruct (deser_f 4294967295 0 (length bs) bs) eqn:E; try discriminate.
   intros H; inversion H; subst.
-  exact (proj2 (proj1 (deser_bounds 4294967295 (length bs)) bs (le_n _)) v n E).
+  exact (proj2 (proj2 (proj1 (deser_bounds 4294967295 (length bs)) 0 bs (le_n _))) v n E).
 Qed.
+
+(* nesting deeper than COP_MAX_NESTING array levels is refused (not transferred): 257 nested empty arrays *)
+Fixpoint nest (k : nat) : value := match k with O => VArr 1 [] | S k' => VArr 1 [nest k'] end.
 
 (* ---------- cop_serialize_value with a capacity = the layout when it fits, 0 otherwise *)
 Lemma ser_size_len v : ser_size v = len (ser v).
@@ -270,19 +308,19 @@ Proof.
         by (symmetry; apply N.leb_gt; lia). reflexivity.
 Qed.
 
-Lemma ser_buf_spec v : transferable v -> fits_stmt v.
+Lemma ser_buf_spec v : wf_value v -> fits_stmt v.
 Proof.
-  induction v using value_ind2; intros T cap; unfold transferable in T; cbn [transferableb] in T;
+  induction v using value_ind2; intros T cap; unfold wf_value in T; cbn [wf_valueb] in T;
     cbn [ser_buf ser_size ser].
   - destruct (N.ltb_spec cap 1), (N.leb_spec 1 cap); try lia; reflexivity.
   - destruct (N.ltb_spec cap 1), (N.ltb_spec cap (1 + 8)), (N.leb_spec 9 cap); try lia; reflexivity.
   - destruct (N.ltb_spec cap 1), (N.ltb_spec cap (1 + 8)), (N.leb_spec 9 cap); try lia; reflexivity.
   - destruct (N.ltb_spec cap 1), (N.ltb_spec cap (1 + 1)), (N.leb_spec 2 cap); try lia; reflexivity.
-  - apply transferable_str in T. destruct T as [_ Hl].
+  - apply wf_value_str in T. destruct T as [_ Hl].
     unfold u32. rewrite N.mod_small by (change 4294967296 with (2 ^ 32); lia).
     destruct (N.ltb_spec cap 1), (N.ltb_spec cap (1 + 4 + len s)), (N.leb_spec (5 + len s) cap); try lia; reflexivity.
   - destruct (N.ltb_spec cap 1), (N.ltb_spec cap (1 + 8)), (N.leb_spec 9 cap); try lia; reflexivity.
-  - fold (transferable (VArr et es)) in T. apply transferable_arr in T. destruct T as (_ & _ & Hall).
+  - fold (wf_value (VArr et es)) in T. apply wf_value_arr in T. destruct T as (_ & _ & Hall).
     assert (Hf : Forall fits_stmt es).
     { rewrite Forall_forall in *. intros x Hx. apply H; [exact Hx|]. apply Hall; exact Hx. }
     destruct (N.ltb_spec cap 1).
@@ -314,7 +352,7 @@ Qed.
 Definition args_size (args : list value) : N := fold_right (fun e a => ser_size e + a) 0 args.
 
 Lemma ser_args_spec cap maxargs : forall args i pos acc,
-  Forall transferable args -> i + len args <= maxargs -> pos <= cap ->
+  Forall wf_value args -> i + len args <= maxargs -> pos <= cap ->
   pos + args_size args <= cap ->
   ser_args args i maxargs cap pos acc = ReqOk (acc ++ flat_map ser args).
 Proof.
@@ -330,7 +368,7 @@ Proof.
 Qed.
 
 Lemma ser_args_first_fail cap maxargs a r acc :
-  transferable a -> 0 < maxargs -> cap - 6 < ser_size a ->
+  wf_value a -> 0 < maxargs -> cap - 6 < ser_size a ->
   ser_args (a :: r) 0 maxargs cap 6 acc = ReqArgFail 0.
 Proof.
   intros Ta Hm Hbig. cbn [ser_args].
@@ -340,7 +378,7 @@ Proof.
 Qed.
 
 Theorem request_fits_when : forall cap idx args,
-  Forall transferable args -> len args <= REQ_MAX_ARGS -> 6 + args_size args <= cap ->
+  Forall wf_value args -> len args <= REQ_MAX_ARGS -> 6 + args_size args <= cap ->
   build_request_cap cap idx args = ReqOk (le_bytes 4 idx ++ le_bytes 2 (len args) ++ flat_map ser args).
 Proof.
   intros cap idx args T Hn Hfit. unfold build_request_cap.
@@ -348,7 +386,7 @@ Proof.
 Qed.
 
 (* ---------- the co-process decodes exactly the arguments that were sent *)
-Lemma deser_args_ser : forall args rest, Forall transferable args ->
+Lemma deser_args_ser : forall args rest, Forall wf_value args ->
   deser_args (length args) (flat_map ser args ++ rest) = Some (Some args).
 Proof.
   induction args as [|a r IH]; intros rest T; [reflexivity|].
@@ -360,7 +398,7 @@ Proof.
 Qed.
 
 Lemma parse_request_built : forall idx args,
-  idx < 2 ^ 32 -> Forall transferable args -> len args <= COP_ARGS_MAX ->
+  idx < 2 ^ 32 -> Forall wf_value args -> len args <= COP_ARGS_MAX ->
   parse_request (le_bytes 4 idx ++ le_bytes 2 (len args) ++ flat_map ser args) = PReq idx (len args) args.
 Proof.
   intros idx args Hi T Hn. unfold parse_request.
@@ -379,20 +417,20 @@ Proof.
 Qed.
 
 (* ---------- the reply *)
-Lemma reply_payload_fits r : transferable r -> ser_size r <= COP_REPLY_BIG_BUF -> reply_payload r = ser r.
+Lemma reply_payload_fits r : wf_value r -> ser_size r <= COP_REPLY_BIG_BUF -> reply_payload r = ser r.
 Proof.
   intros T H. unfold reply_payload. rewrite !(ser_buf_spec r T).
   destruct (N.leb_spec (ser_size r) COP_REPLY_STACK_BUF); [reflexivity|].
   replace (ser_size r <=? COP_REPLY_BIG_BUF) with true by (symmetry; apply N.leb_le; exact H). reflexivity.
 Qed.
-Lemma reply_payload_too_big r : transferable r -> COP_REPLY_BIG_BUF < ser_size r -> reply_payload r = [].
+Lemma reply_payload_too_big r : wf_value r -> COP_REPLY_BIG_BUF < ser_size r -> reply_payload r = [].
 Proof.
   intros T H. unfold reply_payload. rewrite !(ser_buf_spec r T).
   replace (ser_size r <=? COP_REPLY_STACK_BUF) with false by (symmetry; apply N.leb_gt; unfold COP_REPLY_STACK_BUF, COP_REPLY_BIG_BUF in *; lia).
   replace (ser_size r <=? COP_REPLY_BIG_BUF) with false by (symmetry; apply N.leb_gt; exact H). reflexivity.
 Qed.
 
-Lemma parse_reply_result r : transferable r -> parse_reply COP_MSG_FFI_RESULT (ser r) = ROk r.
+Lemma parse_reply_result r : wf_value r -> parse_reply COP_MSG_FFI_RESULT (ser r) = ROk r.
 Proof.
   intros T. unfold parse_reply. rewrite N.eqb_refl.
   pose proof (ser_nonempty r) as Hne.
@@ -404,12 +442,12 @@ Qed.
 (* ---------- one extern call through a healthy co-process gives what the in-process call gives *)
 Definition outcome_ok (o : outcome) : Prop :=
   match o with
-  | ORes r => transferable r /\ ser_size r <= COP_REPLY_BIG_BUF
+  | ORes r => wf_value r /\ ser_size r <= COP_REPLY_BIG_BUF
   | OErr m => len m <= COP_MAX_PAYLOAD
   end.
 
 Theorem call_transparent : forall (f : callee_t) idx args,
-  idx < 2 ^ 32 -> Forall transferable args -> len args <= REQ_MAX_ARGS ->
+  idx < 2 ^ 32 -> Forall wf_value args -> len args <= REQ_MAX_ARGS ->
   6 + args_size args <= REQ_BUF_SIZE ->
   outcome_ok (f idx args) ->
   call_cop f idx args = call_inproc f idx args.
@@ -441,9 +479,9 @@ Lemma bytes_ok_repeat b n : b < 256 -> bytes_ok (repeat b n).
 Proof. intros H. induction n; simpl; constructor; auto. Qed.
 
 Definition big_str (n : N) : value := VStr (repeat 120 (N.to_nat n)).
-Lemma big_str_transferable n : n + 5 < 2 ^ 32 -> transferable (big_str n).
+Lemma big_str_wf_value n : n + 5 < 2 ^ 32 -> wf_value (big_str n).
 Proof.
-  intros H. unfold transferable, big_str. cbn [transferableb].
+  intros H. unfold wf_value, big_str. cbn [wf_valueb].
   rewrite len_repeat, N2Nat.id. apply andb_true_iff. split.
   - apply bytes_okb_spec. apply bytes_ok_repeat. reflexivity.
   - apply N.ltb_lt. exact H.
@@ -451,25 +489,25 @@ Qed.
 Lemma big_str_size n : ser_size (big_str n) = 5 + n.
 Proof. unfold big_str. cbn [ser_size]. now rewrite len_repeat, N2Nat.id. Qed.
 
-(* a transferable argument the 8 KiB request buffer cannot hold: a string of REQ_BUF_SIZE - 10 bytes *)
+(* a wf_value argument the 8 KiB request buffer cannot hold: a string of REQ_BUF_SIZE - 10 bytes *)
 Theorem request_fits_refuted :
-  exists args, Forall transferable args /\ len args <= REQ_MAX_ARGS /\ exists idx, build_request idx args = ReqArgFail 0.
+  exists args, Forall wf_value args /\ len args <= REQ_MAX_ARGS /\ exists idx, build_request idx args = ReqArgFail 0.
 Proof.
   exists [big_str (REQ_BUF_SIZE - 10)]. split; [|split].
-  - constructor; [|constructor]. apply big_str_transferable. reflexivity.
+  - constructor; [|constructor]. apply big_str_wf_value. reflexivity.
   - unfold len, REQ_MAX_ARGS. cbn [length]. lia.
   - exists 0. unfold build_request, build_request_cap.
-    apply ser_args_first_fail; [apply big_str_transferable; reflexivity|reflexivity|].
+    apply ser_args_first_fail; [apply big_str_wf_value; reflexivity|reflexivity|].
     rewrite big_str_size. reflexivity.
 Qed.
 
-(* a transferable result the co-process cannot send back: it arrives as void *)
+(* a wf_value result the co-process cannot send back: it arrives as void *)
 Theorem reply_fits_refuted :
-  exists r, transferable r /\
+  exists r, wf_value r /\
     forall idx, idx < 2 ^ 32 -> call_cop (fun _ _ => ORes r) idx [] = CRes VVoid /\ call_inproc (fun _ _ => ORes r) idx [] = CRes r /\ r <> VVoid.
 Proof.
   exists (big_str COP_REPLY_BIG_BUF).
-  assert (T : transferable (big_str COP_REPLY_BIG_BUF)) by (apply big_str_transferable; reflexivity).
+  assert (T : wf_value (big_str COP_REPLY_BIG_BUF)) by (apply big_str_wf_value; reflexivity).
   split; [exact T|]. intros idx Hi. split; [|split; [reflexivity|discriminate]].
   unfold call_cop, call_cop_cap.
   rewrite request_fits_when; [|apply Forall_nil|unfold len, REQ_MAX_ARGS; cbn [length]; lia|unfold REQ_BUF_SIZE; cbn; lia].
@@ -482,7 +520,7 @@ Proof.
   rewrite frame_recv; [|reflexivity|nc]. reflexivity.
 Qed.
 
-(* non-transferable tags arrive as void *)
+(* non-wf_value tags arrive as void *)
 Theorem other_becomes_void : forall t rest,
   t <> TAG_INT -> t <> TAG_FLOAT -> t <> TAG_BOOL -> t <> TAG_STRING -> t <> TAG_OPAQUE -> t <> TAG_ARRAY ->
   deser (ser (VOther t) ++ rest) = Some (VVoid, 1%nat).
